@@ -410,6 +410,18 @@ func exec(e *lp.Exec) {
 			e.Count("cases", "mask")
 			e.P("> %s", line)
 			e.P("ok")
+		case f[0] == "C" && len(f) > 1 && f[1] == "hs":
+			finish()
+			mode = "hs"
+			e.Count("cases", "hs")
+			e.P("> %s", line)
+			e.P("ok")
+		case f[0] == "Q" && mode == "hs":
+			execQ(e, f)
+		case f[0] == "P" && mode == "hs":
+			execP(e, f)
+		case f[0] == "Z" && mode == "hs":
+			execZ(e, f)
 		case f[0] == "C" && len(f) > 1 && f[1] == "trunc":
 			finish()
 			mode = "trunc"
